@@ -87,7 +87,7 @@ Record cst := mkC {
   iterating : bool;   (* ordered iteration in progress *)
   popped : list Z;   (* popped, not yet received by flush (oldest first) *)
   fifo : list qreq;   (* sent by the container, not yet received by the heap manager *)
-  queue : list (Z * Z);   (* queueBars: predecessor -> successor *)
+  queue : list (Z * Z);   (* queueBars: (predecessor, successor), in the order the successors were parked *)
   pop_prio : Z;   (* next pop priority *)
   id_count : Z;   (* bars created so far *)
   pop_mode : bool;   (* PopCompletedMode *)
@@ -112,47 +112,49 @@ Record cst := mkC {
   cycle_err : bool;   (* a frame error was seen in the current cycle: the remaining bars are pushed back untouched *)
   out_pending : bool;   (* a frame was handed to the output writer and its Write call has not been seen yet *)
   matrix : list Z;   (* GHOST: the bars the width-sync matrices were last built from (heap at the last rebuild) *)
-  final_done : bool   (* a render cycle has ended (frame or error) since the container goroutine saw done *)
+  final_done : bool;   (* a render cycle has ended (frame or error) since the container goroutine saw done *)
+  released : list (Z * Z)   (* Bar.relieved / Bar.lastPriority: bars whose first terminal frame was flushed, with their priority then *)
 }.
 
-Definition cs_bars (s : cst) v : cst := mkC v (heap s) (hsync s) (hlen s) (hdirty s) (iterating s) (popped s) (fifo s) (queue s) (pop_prio s) (id_count s) (pop_mode s) (auto_mode s) (ph s) (cwbuf s) (delayed s) (pend_writes s) (pend_fix s) (outframes s) (cancelled s) (done_seen s) (ended s) (errored s) (ct_exited s) (cycle_pops s) (cycle_flushed s) (iter_heap s) (iter_dirty s) (retired s) (wlog s) (cycle_err s) (out_pending s) (matrix s) (final_done s).
-Definition cs_heap (s : cst) v : cst := mkC (bars s) v (hsync s) (hlen s) (hdirty s) (iterating s) (popped s) (fifo s) (queue s) (pop_prio s) (id_count s) (pop_mode s) (auto_mode s) (ph s) (cwbuf s) (delayed s) (pend_writes s) (pend_fix s) (outframes s) (cancelled s) (done_seen s) (ended s) (errored s) (ct_exited s) (cycle_pops s) (cycle_flushed s) (iter_heap s) (iter_dirty s) (retired s) (wlog s) (cycle_err s) (out_pending s) (matrix s) (final_done s).
-Definition cs_hsync (s : cst) v : cst := mkC (bars s) (heap s) v (hlen s) (hdirty s) (iterating s) (popped s) (fifo s) (queue s) (pop_prio s) (id_count s) (pop_mode s) (auto_mode s) (ph s) (cwbuf s) (delayed s) (pend_writes s) (pend_fix s) (outframes s) (cancelled s) (done_seen s) (ended s) (errored s) (ct_exited s) (cycle_pops s) (cycle_flushed s) (iter_heap s) (iter_dirty s) (retired s) (wlog s) (cycle_err s) (out_pending s) (matrix s) (final_done s).
-Definition cs_hlen (s : cst) v : cst := mkC (bars s) (heap s) (hsync s) v (hdirty s) (iterating s) (popped s) (fifo s) (queue s) (pop_prio s) (id_count s) (pop_mode s) (auto_mode s) (ph s) (cwbuf s) (delayed s) (pend_writes s) (pend_fix s) (outframes s) (cancelled s) (done_seen s) (ended s) (errored s) (ct_exited s) (cycle_pops s) (cycle_flushed s) (iter_heap s) (iter_dirty s) (retired s) (wlog s) (cycle_err s) (out_pending s) (matrix s) (final_done s).
-Definition cs_hdirty (s : cst) v : cst := mkC (bars s) (heap s) (hsync s) (hlen s) v (iterating s) (popped s) (fifo s) (queue s) (pop_prio s) (id_count s) (pop_mode s) (auto_mode s) (ph s) (cwbuf s) (delayed s) (pend_writes s) (pend_fix s) (outframes s) (cancelled s) (done_seen s) (ended s) (errored s) (ct_exited s) (cycle_pops s) (cycle_flushed s) (iter_heap s) (iter_dirty s) (retired s) (wlog s) (cycle_err s) (out_pending s) (matrix s) (final_done s).
-Definition cs_iterating (s : cst) v : cst := mkC (bars s) (heap s) (hsync s) (hlen s) (hdirty s) v (popped s) (fifo s) (queue s) (pop_prio s) (id_count s) (pop_mode s) (auto_mode s) (ph s) (cwbuf s) (delayed s) (pend_writes s) (pend_fix s) (outframes s) (cancelled s) (done_seen s) (ended s) (errored s) (ct_exited s) (cycle_pops s) (cycle_flushed s) (iter_heap s) (iter_dirty s) (retired s) (wlog s) (cycle_err s) (out_pending s) (matrix s) (final_done s).
-Definition cs_popped (s : cst) v : cst := mkC (bars s) (heap s) (hsync s) (hlen s) (hdirty s) (iterating s) v (fifo s) (queue s) (pop_prio s) (id_count s) (pop_mode s) (auto_mode s) (ph s) (cwbuf s) (delayed s) (pend_writes s) (pend_fix s) (outframes s) (cancelled s) (done_seen s) (ended s) (errored s) (ct_exited s) (cycle_pops s) (cycle_flushed s) (iter_heap s) (iter_dirty s) (retired s) (wlog s) (cycle_err s) (out_pending s) (matrix s) (final_done s).
-Definition cs_fifo (s : cst) v : cst := mkC (bars s) (heap s) (hsync s) (hlen s) (hdirty s) (iterating s) (popped s) v (queue s) (pop_prio s) (id_count s) (pop_mode s) (auto_mode s) (ph s) (cwbuf s) (delayed s) (pend_writes s) (pend_fix s) (outframes s) (cancelled s) (done_seen s) (ended s) (errored s) (ct_exited s) (cycle_pops s) (cycle_flushed s) (iter_heap s) (iter_dirty s) (retired s) (wlog s) (cycle_err s) (out_pending s) (matrix s) (final_done s).
-Definition cs_queue (s : cst) v : cst := mkC (bars s) (heap s) (hsync s) (hlen s) (hdirty s) (iterating s) (popped s) (fifo s) v (pop_prio s) (id_count s) (pop_mode s) (auto_mode s) (ph s) (cwbuf s) (delayed s) (pend_writes s) (pend_fix s) (outframes s) (cancelled s) (done_seen s) (ended s) (errored s) (ct_exited s) (cycle_pops s) (cycle_flushed s) (iter_heap s) (iter_dirty s) (retired s) (wlog s) (cycle_err s) (out_pending s) (matrix s) (final_done s).
-Definition cs_pop_prio (s : cst) v : cst := mkC (bars s) (heap s) (hsync s) (hlen s) (hdirty s) (iterating s) (popped s) (fifo s) (queue s) v (id_count s) (pop_mode s) (auto_mode s) (ph s) (cwbuf s) (delayed s) (pend_writes s) (pend_fix s) (outframes s) (cancelled s) (done_seen s) (ended s) (errored s) (ct_exited s) (cycle_pops s) (cycle_flushed s) (iter_heap s) (iter_dirty s) (retired s) (wlog s) (cycle_err s) (out_pending s) (matrix s) (final_done s).
-Definition cs_id_count (s : cst) v : cst := mkC (bars s) (heap s) (hsync s) (hlen s) (hdirty s) (iterating s) (popped s) (fifo s) (queue s) (pop_prio s) v (pop_mode s) (auto_mode s) (ph s) (cwbuf s) (delayed s) (pend_writes s) (pend_fix s) (outframes s) (cancelled s) (done_seen s) (ended s) (errored s) (ct_exited s) (cycle_pops s) (cycle_flushed s) (iter_heap s) (iter_dirty s) (retired s) (wlog s) (cycle_err s) (out_pending s) (matrix s) (final_done s).
-Definition cs_pop_mode (s : cst) v : cst := mkC (bars s) (heap s) (hsync s) (hlen s) (hdirty s) (iterating s) (popped s) (fifo s) (queue s) (pop_prio s) (id_count s) v (auto_mode s) (ph s) (cwbuf s) (delayed s) (pend_writes s) (pend_fix s) (outframes s) (cancelled s) (done_seen s) (ended s) (errored s) (ct_exited s) (cycle_pops s) (cycle_flushed s) (iter_heap s) (iter_dirty s) (retired s) (wlog s) (cycle_err s) (out_pending s) (matrix s) (final_done s).
-Definition cs_auto_mode (s : cst) v : cst := mkC (bars s) (heap s) (hsync s) (hlen s) (hdirty s) (iterating s) (popped s) (fifo s) (queue s) (pop_prio s) (id_count s) (pop_mode s) v (ph s) (cwbuf s) (delayed s) (pend_writes s) (pend_fix s) (outframes s) (cancelled s) (done_seen s) (ended s) (errored s) (ct_exited s) (cycle_pops s) (cycle_flushed s) (iter_heap s) (iter_dirty s) (retired s) (wlog s) (cycle_err s) (out_pending s) (matrix s) (final_done s).
-Definition cs_ph (s : cst) v : cst := mkC (bars s) (heap s) (hsync s) (hlen s) (hdirty s) (iterating s) (popped s) (fifo s) (queue s) (pop_prio s) (id_count s) (pop_mode s) (auto_mode s) v (cwbuf s) (delayed s) (pend_writes s) (pend_fix s) (outframes s) (cancelled s) (done_seen s) (ended s) (errored s) (ct_exited s) (cycle_pops s) (cycle_flushed s) (iter_heap s) (iter_dirty s) (retired s) (wlog s) (cycle_err s) (out_pending s) (matrix s) (final_done s).
-Definition cs_cwbuf (s : cst) v : cst := mkC (bars s) (heap s) (hsync s) (hlen s) (hdirty s) (iterating s) (popped s) (fifo s) (queue s) (pop_prio s) (id_count s) (pop_mode s) (auto_mode s) (ph s) v (delayed s) (pend_writes s) (pend_fix s) (outframes s) (cancelled s) (done_seen s) (ended s) (errored s) (ct_exited s) (cycle_pops s) (cycle_flushed s) (iter_heap s) (iter_dirty s) (retired s) (wlog s) (cycle_err s) (out_pending s) (matrix s) (final_done s).
-Definition cs_delayed (s : cst) v : cst := mkC (bars s) (heap s) (hsync s) (hlen s) (hdirty s) (iterating s) (popped s) (fifo s) (queue s) (pop_prio s) (id_count s) (pop_mode s) (auto_mode s) (ph s) (cwbuf s) v (pend_writes s) (pend_fix s) (outframes s) (cancelled s) (done_seen s) (ended s) (errored s) (ct_exited s) (cycle_pops s) (cycle_flushed s) (iter_heap s) (iter_dirty s) (retired s) (wlog s) (cycle_err s) (out_pending s) (matrix s) (final_done s).
-Definition cs_pend_writes (s : cst) v : cst := mkC (bars s) (heap s) (hsync s) (hlen s) (hdirty s) (iterating s) (popped s) (fifo s) (queue s) (pop_prio s) (id_count s) (pop_mode s) (auto_mode s) (ph s) (cwbuf s) (delayed s) v (pend_fix s) (outframes s) (cancelled s) (done_seen s) (ended s) (errored s) (ct_exited s) (cycle_pops s) (cycle_flushed s) (iter_heap s) (iter_dirty s) (retired s) (wlog s) (cycle_err s) (out_pending s) (matrix s) (final_done s).
-Definition cs_pend_fix (s : cst) v : cst := mkC (bars s) (heap s) (hsync s) (hlen s) (hdirty s) (iterating s) (popped s) (fifo s) (queue s) (pop_prio s) (id_count s) (pop_mode s) (auto_mode s) (ph s) (cwbuf s) (delayed s) (pend_writes s) v (outframes s) (cancelled s) (done_seen s) (ended s) (errored s) (ct_exited s) (cycle_pops s) (cycle_flushed s) (iter_heap s) (iter_dirty s) (retired s) (wlog s) (cycle_err s) (out_pending s) (matrix s) (final_done s).
-Definition cs_outframes (s : cst) v : cst := mkC (bars s) (heap s) (hsync s) (hlen s) (hdirty s) (iterating s) (popped s) (fifo s) (queue s) (pop_prio s) (id_count s) (pop_mode s) (auto_mode s) (ph s) (cwbuf s) (delayed s) (pend_writes s) (pend_fix s) v (cancelled s) (done_seen s) (ended s) (errored s) (ct_exited s) (cycle_pops s) (cycle_flushed s) (iter_heap s) (iter_dirty s) (retired s) (wlog s) (cycle_err s) (out_pending s) (matrix s) (final_done s).
-Definition cs_cancelled (s : cst) v : cst := mkC (bars s) (heap s) (hsync s) (hlen s) (hdirty s) (iterating s) (popped s) (fifo s) (queue s) (pop_prio s) (id_count s) (pop_mode s) (auto_mode s) (ph s) (cwbuf s) (delayed s) (pend_writes s) (pend_fix s) (outframes s) v (done_seen s) (ended s) (errored s) (ct_exited s) (cycle_pops s) (cycle_flushed s) (iter_heap s) (iter_dirty s) (retired s) (wlog s) (cycle_err s) (out_pending s) (matrix s) (final_done s).
-Definition cs_done_seen (s : cst) v : cst := mkC (bars s) (heap s) (hsync s) (hlen s) (hdirty s) (iterating s) (popped s) (fifo s) (queue s) (pop_prio s) (id_count s) (pop_mode s) (auto_mode s) (ph s) (cwbuf s) (delayed s) (pend_writes s) (pend_fix s) (outframes s) (cancelled s) v (ended s) (errored s) (ct_exited s) (cycle_pops s) (cycle_flushed s) (iter_heap s) (iter_dirty s) (retired s) (wlog s) (cycle_err s) (out_pending s) (matrix s) (final_done s).
-Definition cs_ended (s : cst) v : cst := mkC (bars s) (heap s) (hsync s) (hlen s) (hdirty s) (iterating s) (popped s) (fifo s) (queue s) (pop_prio s) (id_count s) (pop_mode s) (auto_mode s) (ph s) (cwbuf s) (delayed s) (pend_writes s) (pend_fix s) (outframes s) (cancelled s) (done_seen s) v (errored s) (ct_exited s) (cycle_pops s) (cycle_flushed s) (iter_heap s) (iter_dirty s) (retired s) (wlog s) (cycle_err s) (out_pending s) (matrix s) (final_done s).
-Definition cs_errored (s : cst) v : cst := mkC (bars s) (heap s) (hsync s) (hlen s) (hdirty s) (iterating s) (popped s) (fifo s) (queue s) (pop_prio s) (id_count s) (pop_mode s) (auto_mode s) (ph s) (cwbuf s) (delayed s) (pend_writes s) (pend_fix s) (outframes s) (cancelled s) (done_seen s) (ended s) v (ct_exited s) (cycle_pops s) (cycle_flushed s) (iter_heap s) (iter_dirty s) (retired s) (wlog s) (cycle_err s) (out_pending s) (matrix s) (final_done s).
-Definition cs_ct_exited (s : cst) v : cst := mkC (bars s) (heap s) (hsync s) (hlen s) (hdirty s) (iterating s) (popped s) (fifo s) (queue s) (pop_prio s) (id_count s) (pop_mode s) (auto_mode s) (ph s) (cwbuf s) (delayed s) (pend_writes s) (pend_fix s) (outframes s) (cancelled s) (done_seen s) (ended s) (errored s) v (cycle_pops s) (cycle_flushed s) (iter_heap s) (iter_dirty s) (retired s) (wlog s) (cycle_err s) (out_pending s) (matrix s) (final_done s).
-Definition cs_cycle_pops (s : cst) v : cst := mkC (bars s) (heap s) (hsync s) (hlen s) (hdirty s) (iterating s) (popped s) (fifo s) (queue s) (pop_prio s) (id_count s) (pop_mode s) (auto_mode s) (ph s) (cwbuf s) (delayed s) (pend_writes s) (pend_fix s) (outframes s) (cancelled s) (done_seen s) (ended s) (errored s) (ct_exited s) v (cycle_flushed s) (iter_heap s) (iter_dirty s) (retired s) (wlog s) (cycle_err s) (out_pending s) (matrix s) (final_done s).
-Definition cs_cycle_flushed (s : cst) v : cst := mkC (bars s) (heap s) (hsync s) (hlen s) (hdirty s) (iterating s) (popped s) (fifo s) (queue s) (pop_prio s) (id_count s) (pop_mode s) (auto_mode s) (ph s) (cwbuf s) (delayed s) (pend_writes s) (pend_fix s) (outframes s) (cancelled s) (done_seen s) (ended s) (errored s) (ct_exited s) (cycle_pops s) v (iter_heap s) (iter_dirty s) (retired s) (wlog s) (cycle_err s) (out_pending s) (matrix s) (final_done s).
-Definition cs_iter_heap (s : cst) v : cst := mkC (bars s) (heap s) (hsync s) (hlen s) (hdirty s) (iterating s) (popped s) (fifo s) (queue s) (pop_prio s) (id_count s) (pop_mode s) (auto_mode s) (ph s) (cwbuf s) (delayed s) (pend_writes s) (pend_fix s) (outframes s) (cancelled s) (done_seen s) (ended s) (errored s) (ct_exited s) (cycle_pops s) (cycle_flushed s) v (iter_dirty s) (retired s) (wlog s) (cycle_err s) (out_pending s) (matrix s) (final_done s).
-Definition cs_iter_dirty (s : cst) v : cst := mkC (bars s) (heap s) (hsync s) (hlen s) (hdirty s) (iterating s) (popped s) (fifo s) (queue s) (pop_prio s) (id_count s) (pop_mode s) (auto_mode s) (ph s) (cwbuf s) (delayed s) (pend_writes s) (pend_fix s) (outframes s) (cancelled s) (done_seen s) (ended s) (errored s) (ct_exited s) (cycle_pops s) (cycle_flushed s) (iter_heap s) v (retired s) (wlog s) (cycle_err s) (out_pending s) (matrix s) (final_done s).
-Definition cs_retired (s : cst) v : cst := mkC (bars s) (heap s) (hsync s) (hlen s) (hdirty s) (iterating s) (popped s) (fifo s) (queue s) (pop_prio s) (id_count s) (pop_mode s) (auto_mode s) (ph s) (cwbuf s) (delayed s) (pend_writes s) (pend_fix s) (outframes s) (cancelled s) (done_seen s) (ended s) (errored s) (ct_exited s) (cycle_pops s) (cycle_flushed s) (iter_heap s) (iter_dirty s) v (wlog s) (cycle_err s) (out_pending s) (matrix s) (final_done s).
-Definition cs_wlog (s : cst) v : cst := mkC (bars s) (heap s) (hsync s) (hlen s) (hdirty s) (iterating s) (popped s) (fifo s) (queue s) (pop_prio s) (id_count s) (pop_mode s) (auto_mode s) (ph s) (cwbuf s) (delayed s) (pend_writes s) (pend_fix s) (outframes s) (cancelled s) (done_seen s) (ended s) (errored s) (ct_exited s) (cycle_pops s) (cycle_flushed s) (iter_heap s) (iter_dirty s) (retired s) v (cycle_err s) (out_pending s) (matrix s) (final_done s).
-Definition cs_cycle_err (s : cst) v : cst := mkC (bars s) (heap s) (hsync s) (hlen s) (hdirty s) (iterating s) (popped s) (fifo s) (queue s) (pop_prio s) (id_count s) (pop_mode s) (auto_mode s) (ph s) (cwbuf s) (delayed s) (pend_writes s) (pend_fix s) (outframes s) (cancelled s) (done_seen s) (ended s) (errored s) (ct_exited s) (cycle_pops s) (cycle_flushed s) (iter_heap s) (iter_dirty s) (retired s) (wlog s) v (out_pending s) (matrix s) (final_done s).
-Definition cs_out_pending (s : cst) v : cst := mkC (bars s) (heap s) (hsync s) (hlen s) (hdirty s) (iterating s) (popped s) (fifo s) (queue s) (pop_prio s) (id_count s) (pop_mode s) (auto_mode s) (ph s) (cwbuf s) (delayed s) (pend_writes s) (pend_fix s) (outframes s) (cancelled s) (done_seen s) (ended s) (errored s) (ct_exited s) (cycle_pops s) (cycle_flushed s) (iter_heap s) (iter_dirty s) (retired s) (wlog s) (cycle_err s) v (matrix s) (final_done s).
-Definition cs_matrix (s : cst) v : cst := mkC (bars s) (heap s) (hsync s) (hlen s) (hdirty s) (iterating s) (popped s) (fifo s) (queue s) (pop_prio s) (id_count s) (pop_mode s) (auto_mode s) (ph s) (cwbuf s) (delayed s) (pend_writes s) (pend_fix s) (outframes s) (cancelled s) (done_seen s) (ended s) (errored s) (ct_exited s) (cycle_pops s) (cycle_flushed s) (iter_heap s) (iter_dirty s) (retired s) (wlog s) (cycle_err s) (out_pending s) v (final_done s).
-Definition cs_final_done (s : cst) v : cst := mkC (bars s) (heap s) (hsync s) (hlen s) (hdirty s) (iterating s) (popped s) (fifo s) (queue s) (pop_prio s) (id_count s) (pop_mode s) (auto_mode s) (ph s) (cwbuf s) (delayed s) (pend_writes s) (pend_fix s) (outframes s) (cancelled s) (done_seen s) (ended s) (errored s) (ct_exited s) (cycle_pops s) (cycle_flushed s) (iter_heap s) (iter_dirty s) (retired s) (wlog s) (cycle_err s) (out_pending s) (matrix s) v.
+Definition cs_bars (s : cst) v : cst := mkC v (heap s) (hsync s) (hlen s) (hdirty s) (iterating s) (popped s) (fifo s) (queue s) (pop_prio s) (id_count s) (pop_mode s) (auto_mode s) (ph s) (cwbuf s) (delayed s) (pend_writes s) (pend_fix s) (outframes s) (cancelled s) (done_seen s) (ended s) (errored s) (ct_exited s) (cycle_pops s) (cycle_flushed s) (iter_heap s) (iter_dirty s) (retired s) (wlog s) (cycle_err s) (out_pending s) (matrix s) (final_done s) (released s).
+Definition cs_heap (s : cst) v : cst := mkC (bars s) v (hsync s) (hlen s) (hdirty s) (iterating s) (popped s) (fifo s) (queue s) (pop_prio s) (id_count s) (pop_mode s) (auto_mode s) (ph s) (cwbuf s) (delayed s) (pend_writes s) (pend_fix s) (outframes s) (cancelled s) (done_seen s) (ended s) (errored s) (ct_exited s) (cycle_pops s) (cycle_flushed s) (iter_heap s) (iter_dirty s) (retired s) (wlog s) (cycle_err s) (out_pending s) (matrix s) (final_done s) (released s).
+Definition cs_hsync (s : cst) v : cst := mkC (bars s) (heap s) v (hlen s) (hdirty s) (iterating s) (popped s) (fifo s) (queue s) (pop_prio s) (id_count s) (pop_mode s) (auto_mode s) (ph s) (cwbuf s) (delayed s) (pend_writes s) (pend_fix s) (outframes s) (cancelled s) (done_seen s) (ended s) (errored s) (ct_exited s) (cycle_pops s) (cycle_flushed s) (iter_heap s) (iter_dirty s) (retired s) (wlog s) (cycle_err s) (out_pending s) (matrix s) (final_done s) (released s).
+Definition cs_hlen (s : cst) v : cst := mkC (bars s) (heap s) (hsync s) v (hdirty s) (iterating s) (popped s) (fifo s) (queue s) (pop_prio s) (id_count s) (pop_mode s) (auto_mode s) (ph s) (cwbuf s) (delayed s) (pend_writes s) (pend_fix s) (outframes s) (cancelled s) (done_seen s) (ended s) (errored s) (ct_exited s) (cycle_pops s) (cycle_flushed s) (iter_heap s) (iter_dirty s) (retired s) (wlog s) (cycle_err s) (out_pending s) (matrix s) (final_done s) (released s).
+Definition cs_hdirty (s : cst) v : cst := mkC (bars s) (heap s) (hsync s) (hlen s) v (iterating s) (popped s) (fifo s) (queue s) (pop_prio s) (id_count s) (pop_mode s) (auto_mode s) (ph s) (cwbuf s) (delayed s) (pend_writes s) (pend_fix s) (outframes s) (cancelled s) (done_seen s) (ended s) (errored s) (ct_exited s) (cycle_pops s) (cycle_flushed s) (iter_heap s) (iter_dirty s) (retired s) (wlog s) (cycle_err s) (out_pending s) (matrix s) (final_done s) (released s).
+Definition cs_iterating (s : cst) v : cst := mkC (bars s) (heap s) (hsync s) (hlen s) (hdirty s) v (popped s) (fifo s) (queue s) (pop_prio s) (id_count s) (pop_mode s) (auto_mode s) (ph s) (cwbuf s) (delayed s) (pend_writes s) (pend_fix s) (outframes s) (cancelled s) (done_seen s) (ended s) (errored s) (ct_exited s) (cycle_pops s) (cycle_flushed s) (iter_heap s) (iter_dirty s) (retired s) (wlog s) (cycle_err s) (out_pending s) (matrix s) (final_done s) (released s).
+Definition cs_popped (s : cst) v : cst := mkC (bars s) (heap s) (hsync s) (hlen s) (hdirty s) (iterating s) v (fifo s) (queue s) (pop_prio s) (id_count s) (pop_mode s) (auto_mode s) (ph s) (cwbuf s) (delayed s) (pend_writes s) (pend_fix s) (outframes s) (cancelled s) (done_seen s) (ended s) (errored s) (ct_exited s) (cycle_pops s) (cycle_flushed s) (iter_heap s) (iter_dirty s) (retired s) (wlog s) (cycle_err s) (out_pending s) (matrix s) (final_done s) (released s).
+Definition cs_fifo (s : cst) v : cst := mkC (bars s) (heap s) (hsync s) (hlen s) (hdirty s) (iterating s) (popped s) v (queue s) (pop_prio s) (id_count s) (pop_mode s) (auto_mode s) (ph s) (cwbuf s) (delayed s) (pend_writes s) (pend_fix s) (outframes s) (cancelled s) (done_seen s) (ended s) (errored s) (ct_exited s) (cycle_pops s) (cycle_flushed s) (iter_heap s) (iter_dirty s) (retired s) (wlog s) (cycle_err s) (out_pending s) (matrix s) (final_done s) (released s).
+Definition cs_queue (s : cst) v : cst := mkC (bars s) (heap s) (hsync s) (hlen s) (hdirty s) (iterating s) (popped s) (fifo s) v (pop_prio s) (id_count s) (pop_mode s) (auto_mode s) (ph s) (cwbuf s) (delayed s) (pend_writes s) (pend_fix s) (outframes s) (cancelled s) (done_seen s) (ended s) (errored s) (ct_exited s) (cycle_pops s) (cycle_flushed s) (iter_heap s) (iter_dirty s) (retired s) (wlog s) (cycle_err s) (out_pending s) (matrix s) (final_done s) (released s).
+Definition cs_pop_prio (s : cst) v : cst := mkC (bars s) (heap s) (hsync s) (hlen s) (hdirty s) (iterating s) (popped s) (fifo s) (queue s) v (id_count s) (pop_mode s) (auto_mode s) (ph s) (cwbuf s) (delayed s) (pend_writes s) (pend_fix s) (outframes s) (cancelled s) (done_seen s) (ended s) (errored s) (ct_exited s) (cycle_pops s) (cycle_flushed s) (iter_heap s) (iter_dirty s) (retired s) (wlog s) (cycle_err s) (out_pending s) (matrix s) (final_done s) (released s).
+Definition cs_id_count (s : cst) v : cst := mkC (bars s) (heap s) (hsync s) (hlen s) (hdirty s) (iterating s) (popped s) (fifo s) (queue s) (pop_prio s) v (pop_mode s) (auto_mode s) (ph s) (cwbuf s) (delayed s) (pend_writes s) (pend_fix s) (outframes s) (cancelled s) (done_seen s) (ended s) (errored s) (ct_exited s) (cycle_pops s) (cycle_flushed s) (iter_heap s) (iter_dirty s) (retired s) (wlog s) (cycle_err s) (out_pending s) (matrix s) (final_done s) (released s).
+Definition cs_pop_mode (s : cst) v : cst := mkC (bars s) (heap s) (hsync s) (hlen s) (hdirty s) (iterating s) (popped s) (fifo s) (queue s) (pop_prio s) (id_count s) v (auto_mode s) (ph s) (cwbuf s) (delayed s) (pend_writes s) (pend_fix s) (outframes s) (cancelled s) (done_seen s) (ended s) (errored s) (ct_exited s) (cycle_pops s) (cycle_flushed s) (iter_heap s) (iter_dirty s) (retired s) (wlog s) (cycle_err s) (out_pending s) (matrix s) (final_done s) (released s).
+Definition cs_auto_mode (s : cst) v : cst := mkC (bars s) (heap s) (hsync s) (hlen s) (hdirty s) (iterating s) (popped s) (fifo s) (queue s) (pop_prio s) (id_count s) (pop_mode s) v (ph s) (cwbuf s) (delayed s) (pend_writes s) (pend_fix s) (outframes s) (cancelled s) (done_seen s) (ended s) (errored s) (ct_exited s) (cycle_pops s) (cycle_flushed s) (iter_heap s) (iter_dirty s) (retired s) (wlog s) (cycle_err s) (out_pending s) (matrix s) (final_done s) (released s).
+Definition cs_ph (s : cst) v : cst := mkC (bars s) (heap s) (hsync s) (hlen s) (hdirty s) (iterating s) (popped s) (fifo s) (queue s) (pop_prio s) (id_count s) (pop_mode s) (auto_mode s) v (cwbuf s) (delayed s) (pend_writes s) (pend_fix s) (outframes s) (cancelled s) (done_seen s) (ended s) (errored s) (ct_exited s) (cycle_pops s) (cycle_flushed s) (iter_heap s) (iter_dirty s) (retired s) (wlog s) (cycle_err s) (out_pending s) (matrix s) (final_done s) (released s).
+Definition cs_cwbuf (s : cst) v : cst := mkC (bars s) (heap s) (hsync s) (hlen s) (hdirty s) (iterating s) (popped s) (fifo s) (queue s) (pop_prio s) (id_count s) (pop_mode s) (auto_mode s) (ph s) v (delayed s) (pend_writes s) (pend_fix s) (outframes s) (cancelled s) (done_seen s) (ended s) (errored s) (ct_exited s) (cycle_pops s) (cycle_flushed s) (iter_heap s) (iter_dirty s) (retired s) (wlog s) (cycle_err s) (out_pending s) (matrix s) (final_done s) (released s).
+Definition cs_delayed (s : cst) v : cst := mkC (bars s) (heap s) (hsync s) (hlen s) (hdirty s) (iterating s) (popped s) (fifo s) (queue s) (pop_prio s) (id_count s) (pop_mode s) (auto_mode s) (ph s) (cwbuf s) v (pend_writes s) (pend_fix s) (outframes s) (cancelled s) (done_seen s) (ended s) (errored s) (ct_exited s) (cycle_pops s) (cycle_flushed s) (iter_heap s) (iter_dirty s) (retired s) (wlog s) (cycle_err s) (out_pending s) (matrix s) (final_done s) (released s).
+Definition cs_pend_writes (s : cst) v : cst := mkC (bars s) (heap s) (hsync s) (hlen s) (hdirty s) (iterating s) (popped s) (fifo s) (queue s) (pop_prio s) (id_count s) (pop_mode s) (auto_mode s) (ph s) (cwbuf s) (delayed s) v (pend_fix s) (outframes s) (cancelled s) (done_seen s) (ended s) (errored s) (ct_exited s) (cycle_pops s) (cycle_flushed s) (iter_heap s) (iter_dirty s) (retired s) (wlog s) (cycle_err s) (out_pending s) (matrix s) (final_done s) (released s).
+Definition cs_pend_fix (s : cst) v : cst := mkC (bars s) (heap s) (hsync s) (hlen s) (hdirty s) (iterating s) (popped s) (fifo s) (queue s) (pop_prio s) (id_count s) (pop_mode s) (auto_mode s) (ph s) (cwbuf s) (delayed s) (pend_writes s) v (outframes s) (cancelled s) (done_seen s) (ended s) (errored s) (ct_exited s) (cycle_pops s) (cycle_flushed s) (iter_heap s) (iter_dirty s) (retired s) (wlog s) (cycle_err s) (out_pending s) (matrix s) (final_done s) (released s).
+Definition cs_outframes (s : cst) v : cst := mkC (bars s) (heap s) (hsync s) (hlen s) (hdirty s) (iterating s) (popped s) (fifo s) (queue s) (pop_prio s) (id_count s) (pop_mode s) (auto_mode s) (ph s) (cwbuf s) (delayed s) (pend_writes s) (pend_fix s) v (cancelled s) (done_seen s) (ended s) (errored s) (ct_exited s) (cycle_pops s) (cycle_flushed s) (iter_heap s) (iter_dirty s) (retired s) (wlog s) (cycle_err s) (out_pending s) (matrix s) (final_done s) (released s).
+Definition cs_cancelled (s : cst) v : cst := mkC (bars s) (heap s) (hsync s) (hlen s) (hdirty s) (iterating s) (popped s) (fifo s) (queue s) (pop_prio s) (id_count s) (pop_mode s) (auto_mode s) (ph s) (cwbuf s) (delayed s) (pend_writes s) (pend_fix s) (outframes s) v (done_seen s) (ended s) (errored s) (ct_exited s) (cycle_pops s) (cycle_flushed s) (iter_heap s) (iter_dirty s) (retired s) (wlog s) (cycle_err s) (out_pending s) (matrix s) (final_done s) (released s).
+Definition cs_done_seen (s : cst) v : cst := mkC (bars s) (heap s) (hsync s) (hlen s) (hdirty s) (iterating s) (popped s) (fifo s) (queue s) (pop_prio s) (id_count s) (pop_mode s) (auto_mode s) (ph s) (cwbuf s) (delayed s) (pend_writes s) (pend_fix s) (outframes s) (cancelled s) v (ended s) (errored s) (ct_exited s) (cycle_pops s) (cycle_flushed s) (iter_heap s) (iter_dirty s) (retired s) (wlog s) (cycle_err s) (out_pending s) (matrix s) (final_done s) (released s).
+Definition cs_ended (s : cst) v : cst := mkC (bars s) (heap s) (hsync s) (hlen s) (hdirty s) (iterating s) (popped s) (fifo s) (queue s) (pop_prio s) (id_count s) (pop_mode s) (auto_mode s) (ph s) (cwbuf s) (delayed s) (pend_writes s) (pend_fix s) (outframes s) (cancelled s) (done_seen s) v (errored s) (ct_exited s) (cycle_pops s) (cycle_flushed s) (iter_heap s) (iter_dirty s) (retired s) (wlog s) (cycle_err s) (out_pending s) (matrix s) (final_done s) (released s).
+Definition cs_errored (s : cst) v : cst := mkC (bars s) (heap s) (hsync s) (hlen s) (hdirty s) (iterating s) (popped s) (fifo s) (queue s) (pop_prio s) (id_count s) (pop_mode s) (auto_mode s) (ph s) (cwbuf s) (delayed s) (pend_writes s) (pend_fix s) (outframes s) (cancelled s) (done_seen s) (ended s) v (ct_exited s) (cycle_pops s) (cycle_flushed s) (iter_heap s) (iter_dirty s) (retired s) (wlog s) (cycle_err s) (out_pending s) (matrix s) (final_done s) (released s).
+Definition cs_ct_exited (s : cst) v : cst := mkC (bars s) (heap s) (hsync s) (hlen s) (hdirty s) (iterating s) (popped s) (fifo s) (queue s) (pop_prio s) (id_count s) (pop_mode s) (auto_mode s) (ph s) (cwbuf s) (delayed s) (pend_writes s) (pend_fix s) (outframes s) (cancelled s) (done_seen s) (ended s) (errored s) v (cycle_pops s) (cycle_flushed s) (iter_heap s) (iter_dirty s) (retired s) (wlog s) (cycle_err s) (out_pending s) (matrix s) (final_done s) (released s).
+Definition cs_cycle_pops (s : cst) v : cst := mkC (bars s) (heap s) (hsync s) (hlen s) (hdirty s) (iterating s) (popped s) (fifo s) (queue s) (pop_prio s) (id_count s) (pop_mode s) (auto_mode s) (ph s) (cwbuf s) (delayed s) (pend_writes s) (pend_fix s) (outframes s) (cancelled s) (done_seen s) (ended s) (errored s) (ct_exited s) v (cycle_flushed s) (iter_heap s) (iter_dirty s) (retired s) (wlog s) (cycle_err s) (out_pending s) (matrix s) (final_done s) (released s).
+Definition cs_cycle_flushed (s : cst) v : cst := mkC (bars s) (heap s) (hsync s) (hlen s) (hdirty s) (iterating s) (popped s) (fifo s) (queue s) (pop_prio s) (id_count s) (pop_mode s) (auto_mode s) (ph s) (cwbuf s) (delayed s) (pend_writes s) (pend_fix s) (outframes s) (cancelled s) (done_seen s) (ended s) (errored s) (ct_exited s) (cycle_pops s) v (iter_heap s) (iter_dirty s) (retired s) (wlog s) (cycle_err s) (out_pending s) (matrix s) (final_done s) (released s).
+Definition cs_iter_heap (s : cst) v : cst := mkC (bars s) (heap s) (hsync s) (hlen s) (hdirty s) (iterating s) (popped s) (fifo s) (queue s) (pop_prio s) (id_count s) (pop_mode s) (auto_mode s) (ph s) (cwbuf s) (delayed s) (pend_writes s) (pend_fix s) (outframes s) (cancelled s) (done_seen s) (ended s) (errored s) (ct_exited s) (cycle_pops s) (cycle_flushed s) v (iter_dirty s) (retired s) (wlog s) (cycle_err s) (out_pending s) (matrix s) (final_done s) (released s).
+Definition cs_iter_dirty (s : cst) v : cst := mkC (bars s) (heap s) (hsync s) (hlen s) (hdirty s) (iterating s) (popped s) (fifo s) (queue s) (pop_prio s) (id_count s) (pop_mode s) (auto_mode s) (ph s) (cwbuf s) (delayed s) (pend_writes s) (pend_fix s) (outframes s) (cancelled s) (done_seen s) (ended s) (errored s) (ct_exited s) (cycle_pops s) (cycle_flushed s) (iter_heap s) v (retired s) (wlog s) (cycle_err s) (out_pending s) (matrix s) (final_done s) (released s).
+Definition cs_retired (s : cst) v : cst := mkC (bars s) (heap s) (hsync s) (hlen s) (hdirty s) (iterating s) (popped s) (fifo s) (queue s) (pop_prio s) (id_count s) (pop_mode s) (auto_mode s) (ph s) (cwbuf s) (delayed s) (pend_writes s) (pend_fix s) (outframes s) (cancelled s) (done_seen s) (ended s) (errored s) (ct_exited s) (cycle_pops s) (cycle_flushed s) (iter_heap s) (iter_dirty s) v (wlog s) (cycle_err s) (out_pending s) (matrix s) (final_done s) (released s).
+Definition cs_wlog (s : cst) v : cst := mkC (bars s) (heap s) (hsync s) (hlen s) (hdirty s) (iterating s) (popped s) (fifo s) (queue s) (pop_prio s) (id_count s) (pop_mode s) (auto_mode s) (ph s) (cwbuf s) (delayed s) (pend_writes s) (pend_fix s) (outframes s) (cancelled s) (done_seen s) (ended s) (errored s) (ct_exited s) (cycle_pops s) (cycle_flushed s) (iter_heap s) (iter_dirty s) (retired s) v (cycle_err s) (out_pending s) (matrix s) (final_done s) (released s).
+Definition cs_cycle_err (s : cst) v : cst := mkC (bars s) (heap s) (hsync s) (hlen s) (hdirty s) (iterating s) (popped s) (fifo s) (queue s) (pop_prio s) (id_count s) (pop_mode s) (auto_mode s) (ph s) (cwbuf s) (delayed s) (pend_writes s) (pend_fix s) (outframes s) (cancelled s) (done_seen s) (ended s) (errored s) (ct_exited s) (cycle_pops s) (cycle_flushed s) (iter_heap s) (iter_dirty s) (retired s) (wlog s) v (out_pending s) (matrix s) (final_done s) (released s).
+Definition cs_out_pending (s : cst) v : cst := mkC (bars s) (heap s) (hsync s) (hlen s) (hdirty s) (iterating s) (popped s) (fifo s) (queue s) (pop_prio s) (id_count s) (pop_mode s) (auto_mode s) (ph s) (cwbuf s) (delayed s) (pend_writes s) (pend_fix s) (outframes s) (cancelled s) (done_seen s) (ended s) (errored s) (ct_exited s) (cycle_pops s) (cycle_flushed s) (iter_heap s) (iter_dirty s) (retired s) (wlog s) (cycle_err s) v (matrix s) (final_done s) (released s).
+Definition cs_matrix (s : cst) v : cst := mkC (bars s) (heap s) (hsync s) (hlen s) (hdirty s) (iterating s) (popped s) (fifo s) (queue s) (pop_prio s) (id_count s) (pop_mode s) (auto_mode s) (ph s) (cwbuf s) (delayed s) (pend_writes s) (pend_fix s) (outframes s) (cancelled s) (done_seen s) (ended s) (errored s) (ct_exited s) (cycle_pops s) (cycle_flushed s) (iter_heap s) (iter_dirty s) (retired s) (wlog s) (cycle_err s) (out_pending s) v (final_done s) (released s).
+Definition cs_final_done (s : cst) v : cst := mkC (bars s) (heap s) (hsync s) (hlen s) (hdirty s) (iterating s) (popped s) (fifo s) (queue s) (pop_prio s) (id_count s) (pop_mode s) (auto_mode s) (ph s) (cwbuf s) (delayed s) (pend_writes s) (pend_fix s) (outframes s) (cancelled s) (done_seen s) (ended s) (errored s) (ct_exited s) (cycle_pops s) (cycle_flushed s) (iter_heap s) (iter_dirty s) (retired s) (wlog s) (cycle_err s) (out_pending s) (matrix s) v (released s).
+Definition cs_released (s : cst) v : cst := mkC (bars s) (heap s) (hsync s) (hlen s) (hdirty s) (iterating s) (popped s) (fifo s) (queue s) (pop_prio s) (id_count s) (pop_mode s) (auto_mode s) (ph s) (cwbuf s) (delayed s) (pend_writes s) (pend_fix s) (outframes s) (cancelled s) (done_seen s) (ended s) (errored s) (ct_exited s) (cycle_pops s) (cycle_flushed s) (iter_heap s) (iter_dirty s) (retired s) (wlog s) (cycle_err s) (out_pending s) (matrix s) (final_done s) v.
 
 Definition init_cst (popm autom delay : bool) : cst :=
   mkC [] [] false 0 false false [] [] [] (-2147483648) 0 popm autom Idle [] delay [] [] [] false false false false false
-      [] [] [] false [] [] false false [] false.
+      [] [] [] false [] [] false false [] false [].
 
 Definition upd_bar (s : cst) (b : Z) (r : brec) : cst := cs_bars s (update b r (bars s)).
 
@@ -298,6 +300,21 @@ Definition idle_ph (s : cst) : bool := match ph s with Idle => true | _ => false
 Definition rendering (s : cst) : bool := match ph s with Rendering _ _ _ _ _ _ => true | _ => false end.
 Definition nil_b {A} (l : list A) : bool := match l with [] => true | _ => false end.
 
+(* the bars parked behind b, oldest first *)
+Fixpoint successors (b : Z) (q : list (Z * Z)) : list Z :=
+  match q with
+  | [] => []
+  | (k, v) :: r => if b =? k then v :: successors b r else successors b r
+  end.
+
+(* flush: qb.priority = b.priority for every bar parked behind b *)
+Fixpoint promote_bars (bs : list (Z * brec)) (qbs : list Z) (p : Z) : list (Z * brec) :=
+  match qbs with
+  | [] => bs
+  | qb :: r => promote_bars (match lookup qb bs with Some rq => update qb (set_prio rq p) bs | None => bs end) r p
+  end.
+Definition promote (s : cst) (qbs : list Z) (p : Z) : cst := cs_bars s (promote_bars (bars s) qbs p).
+
 Definition step (s : cst) (e : ev) : option cst :=
   match e with
   (* ---- client ---- *)
@@ -322,10 +339,18 @@ Definition step (s : cst) (e : ev) : option cst :=
           let r := mkBR st prio xr xv None [] false in
           let s1 := cs_id_count (upd_bar s b r) (id_count s + 1) in
           match after with
-          | Some a =>   (* parked behind a: the closure sends nothing; an earlier successor of a is overwritten *)
-              match replace_last_op (fifo s1) [] with
-              | Some f => Some (cs_queue (cs_fifo s1 f) (update a b (queue s1)))
-              | None => None
+          | Some a =>
+              match lookup a (released s1) with
+              | Some pa =>   (* a's final state is already flushed: pushed at once, with the priority a had then *)
+                  match replace_last_op (fifo s1) [QPush b true] with
+                  | Some f => Some (cs_fifo (upd_bar s1 b (set_prio r pa)) f)
+                  | None => None
+                  end
+              | None =>      (* parked behind a, after the bars already parked there: the closure sends nothing *)
+                  match replace_last_op (fifo s1) [] with
+                  | Some f => Some (cs_queue (cs_fifo s1 f) (queue s1 ++ [(a, b)]))
+                  | None => None
+                  end
               end
           | None =>
               match replace_last_op (fifo s1) [QPush b true] with
@@ -385,16 +410,15 @@ Definition step (s : cst) (e : ev) : option cst :=
           let fin (s : cst) (pc' : Z) (pushes' : list (Z * bool)) :=
             Some (cs_ph s (Rendering wd ht (rows ++ taken) (n + used) pc' pushes')) in
           if sh =? 1 then
-            match lookup b (queue s0) with
-            | Some qb =>
-                match lookup qb (bars s0) with
-                | Some rq =>
-                    (* the successor takes the bar's priority and is pushed; the bar itself is not *)
-                    let s1 := upd_bar (upd_bar s0 b rc) qb (set_prio rq (br_prio r)) in
-                    fin (cs_retired (cs_queue s1 (remove_key b (queue s1))) (b :: retired s1)) pc (pushes ++ [(qb, true)])
-                | None => None
-                end
-            | None =>
+            (* b.relieved, b.lastPriority = true, b.priority *)
+            let s0 := cs_released s0 ((b, br_prio r) :: released s0) in
+            match successors b (queue s0) with
+            | (_ :: _) as qbs =>
+                (* every bar parked behind b takes b's priority and is pushed, in the order they were parked; b itself is not *)
+                let s1 := promote (upd_bar s0 b rc) qbs (br_prio r) in
+                fin (cs_retired (cs_queue s1 (remove_key b (queue s1))) (b :: retired s1)) pc
+                    (pushes ++ map (fun qb => (qb, true)) qbs)
+            | [] =>
                 if pop_mode s0 && negb np then
                   fin (cs_pop_prio (upd_bar s0 b (set_prio rc (pop_prio s0))) (pop_prio s0 + 1)) pc (pushes ++ [(b, false)])
                 else if negb rmf then fin (upd_bar s0 b rc) pc (pushes ++ [(b, false)])
